@@ -103,3 +103,17 @@ contract('Sink._finish_cycle', props=['C06', 'C03', 'C02'], args={}, modular=Tru
                                        'self._value_of_received_parts == old(self._value_of_received_parts)'},
          modifies=['self._part', 'self._output', 'self._waiting_for_part_since', 'self._waiting_for_downstream_space',
                    'self._cycle_time', 'self._next_cycle_time_offset', '$trace'])
+
+# --------------------------------------------------------------------------- PartGenerator (C02: every supplied part is a new object)
+contract('PartGenerator.__init__', props=['C02'], args={'name_prefix': 'str', 'value': 'real', 'quality': 'any'},
+         invariants=False,
+         ensures={'starts_counting_at_zero': 'self._generated_part_counter == 0',
+                  'keeps_the_starting_parameters': 'self.value == value and self.name_prefix == name_prefix'})
+contract('PartGenerator.generate_part', props=['C02', 'C16'], args={}, result='ref:Part', invariants=False,
+         ensures={'a_new_part_every_time': 'result is not None and fresh(result) and typed(result, "Part")',
+                  'counted_once': 'self._generated_part_counter == old(self._generated_part_counter) + 1',
+                  'starts_with_the_generator_value': 'result._value == self.value and asset_value(result) == self.value',
+                  'starts_outside_every_device': 'len(result._routing_history) == 0 and len(result._group_pathing) == 0 and '
+                                                 'result._env is None',
+                  'generator_parameters_untouched': 'self.value == old(self.value) and self.name_prefix == old(self.name_prefix)'},
+         modifies=['self._generated_part_counter', 'Asset._id_counter', '$trace'])
